@@ -74,6 +74,8 @@ func alphabet() []hostile {
 		{name: "enableStats(true)", typ: net.Call, svc: 1, obj: 1, act: 81, pay: []byte{1}},
 		{name: "enableTrace(true)", typ: net.Call, svc: 1, obj: 1, act: 85, pay: []byte{1}},
 		{name: "stats()", typ: net.Call, svc: 1, obj: 1, act: 82},
+		{name: "register(trace-signal,90)", typ: net.Call, svc: 1, obj: 1, act: 0, pay: regPayload(1, 0x56, 90)},
+		{name: "register(trace-signal,91)", typ: net.Call, svc: 1, obj: 1, act: 0, pay: regPayload(1, 0x56, 91)},
 		{name: "clearStats()", typ: net.Call, svc: 1, obj: 1, act: 83},
 		{name: "echo(truncated)", typ: net.Call, svc: 1, obj: 1, act: 100, pay: []byte{1, 2}},
 		{name: "echo(garbage)", typ: net.Call, svc: 1, obj: 1, act: 100, pay: bytes.Repeat([]byte{0xfe}, 64)},
@@ -323,12 +325,14 @@ func cuts() {
 }
 
 func init() {
+	reg.Register(&reg.Scenario{Property: "C12", Name: "backlog-behind-busy-object", Body: fx.Backlog(12), Quick: 1, Thorough: 2,
+		Doc: "an object busy in a gated call; one connection pipelines terminate() + 12 calls (more than its mailbox holds), a second connection one more; then the gate opens"})
 	reg.Register(&reg.Scenario{Property: "C12", Name: "cut-frames", Body: cuts, Quick: 0, Thorough: 1,
 		Doc: "an authenticated peer sends a complete frame, then the same frame cut at every byte position, and closes or stays silent; then a fresh and an established client call every object", MustFlag: []string{"cut-in-header", "cut-in-payload"}})
-	reg.Register(&reg.Scenario{Property: "C12", Name: "hostile-2-unbounded", Body: body(2, false), Quick: 0, Thorough: 1,
-		Doc: "authenticated hostile peer: all sequences of <=2 frames of a 33-frame alphabet x abrupt disconnect, unbounded buffers; then a fresh and an established client call every object"})
-	reg.Register(&reg.Scenario{Property: "C12", Name: "hostile-2-bounded", Body: body(2, true), Quick: 0, Thorough: 1,
+	reg.Register(&reg.Scenario{Property: "C12", Name: "hostile-2-unbounded", Body: body(2, false), Quick: 0, Thorough: 1, MaxSteps: 60000, StepLimitFails: true,
+		Doc: "authenticated hostile peer: all sequences of <=2 frames of a 35-frame alphabet x abrupt disconnect, unbounded buffers; then a fresh and an established client call every object"})
+	reg.Register(&reg.Scenario{Property: "C12", Name: "hostile-2-bounded", Body: body(2, true), Quick: 0, Thorough: 1, MaxSteps: 60000, StepLimitFails: true,
 		Doc: "same with a finite send buffer towards a hostile peer that never reads"})
-	reg.Register(&reg.Scenario{Property: "C12", Name: "hostile-3-unbounded", Body: body(3, false), Quick: -1, Thorough: 0,
+	reg.Register(&reg.Scenario{Property: "C12", Name: "hostile-3-unbounded", Body: body(3, false), Quick: -1, Thorough: 0, MaxSteps: 60000, StepLimitFails: true,
 		Doc: "all sequences of <=3 hostile frames, unbounded buffers"})
 }
